@@ -637,8 +637,8 @@ def _run_cagrad(case, acc):
                         _, _, val = R.min_norm_point(Jd / ssc)
                         mn = math.sqrt(max(0.0, val))
                     acc.count("cagrad-zero-outputs")
-                    if mn > 1e-9:
-                        acc.count("cagrad-zero-outputs-at-approximate-stationarity(1e-9<minnorm/s<=norm_eps)")
+                    if mn > 1e-6:  # the reference's minnorm^2 is exact to ~1e-12 only
+                        acc.count("cagrad-zero-outputs-at-approximate-stationarity(1e-6<minnorm/s<=norm_eps)")
                     # not an error/tolerance ratio: the library returns 0 iff |g_w| < norm_eps s and minnorm <= |g_w|, so this may approach 1
                     k_ = "info:cagrad zero output: minnorm/(norm_eps s) (not a margin)"
                     acc.maxima[k_] = max(acc.maxima.get(k_, 0.0), mn / CAGRAD_NORM_EPS)
